@@ -34,8 +34,8 @@ PROPS["C13"] = {
     "level": "fault_enumeration",
     "design_ref": "DESIGN.md §3 C13",
     "technique": "model-based runtime monitoring of the real in-memory and RocksDB stores + fault enumeration (reopen points, SIGKILL of a writer process) + valgrind memcheck",
-    "text": "Every answer of every operation over adversarial (agent, item, key) histories is compared with a reference map through the public persistence traits, for the in-memory store (incl. the idle/in-use hand-over) and for RocksDB; ids must be stable and injective per agent and storage sharing between different (agent, item) pairs is detected by probe. For RocksDB this is checked across close/reopen at enumerated positions (every position in the thorough tier) and after SIGKILL of a writer process at seeded instants, requiring all acknowledged operations to be present and the store to remain usable. Identifier uniqueness and stability are also checked with 2-8 threads registering names concurrently over about 1 750 (quick) / 45 000 (thorough) open/close sessions, and items whose identifiers are multiples of 256 apart are exercised with clears (stride histories).",
-    "note": "Trusted base: the ~60-line reference model, the expansion of operations into single trait calls, the stdout ack protocol of the writer child. SIGKILL exercises process death, not power loss (the OS page cache survives). RocksDB itself is exercised, not modelled.",
+    "text": "Every answer of every operation over adversarial (agent, item, key) histories is compared with a reference map through the public persistence traits, for the in-memory store (incl. the idle/in-use hand-over) and for RocksDB; ids must be stable and injective per agent and storage sharing between different (agent, item) pairs is detected by probe. For RocksDB this is checked across close/reopen at enumerated positions (every position in the thorough tier) and after SIGKILL of a writer process at seeded instants, requiring all acknowledged operations to be present and the store to remain usable. Identifier uniqueness and stability are also checked with 2-8 threads registering names concurrently over about 1 750 (quick) / 45 000 (thorough) open/close sessions, and items whose identifiers are multiples of 256 apart are exercised with clears (stride histories). Kind confusion (parts mem-kinds, rocks-kinds): value operations are also issued through identifiers of map items and map operations through identifiers of value items. A refusal (InvalidOperation, the in-memory store) is accepted only while the item holds, or after remove_map emptied it may hold, data of the other kind, and must leave both representations unchanged; they are read at once. An accepted operation (RocksDB keeps values and maps in separate column families) must be reflected by later reads of its kind, also across reopen, and must not change the item's data of the other kind. open_rocks_store(None, ..) (temporary-directory store) obeys the same model next to a second temporary store under the same names (rocks-transient). A second open of an open directory is refused without disturbing the open store. A malformed short key put under one map item's prefix by a foreign writer (rocks-foreign-key) makes read_map of that item fail with InvalidKey or return exactly its entries, leaves every other item exact, and is removed by clear_map. get_value appends to non-empty caller buffers of 3, 37 and 300 bytes, returns exactly the number of bytes appended, and leaves the buffer untouched when it returns None. StoreDisabled never fails and never returns anything that was not written.",
+    "note": "Trusted base: the ~60-line reference model, the expansion of operations into single trait calls, the stdout ack protocol of the writer child. SIGKILL exercises process death, not power loss (the OS page cache survives). RocksDB itself is exercised, not modelled. Whether a store refuses cross-kind operations is not decided by the statement; both behaviours are counted. The foreign-key part trusts a replica of the keystore's counter merge operator.",
     "runs": [{"engine": "store"}],
     "sanitizers": [{"kind": "valgrind", "engine": "store", "args": ["--scale", "0.005", "--threads", "1", "--only", "rocks-reopen"], "timeout_s": 1800}],
     "assumptions": ["data operations of one item are sequential; names are registered concurrently only by different agents (one thread per agent); thread interleavings are sampled, not replayable", "fixed kind per item", "kill instants are sampled; the kill instant itself is not replayable", "TMPDIR honours write ordering for a killed process"],
@@ -180,7 +180,7 @@ PROPS["C08"] = {
     "level": "exploration",
     "design_ref": "DESIGN.md §3 C08",
     "technique": "differential runtime monitoring of the stand-alone client downlink tasks and the agent-hosted downlinks against a reference fold; random + bounded-exhaustive notification sequences; greedy witness minimisation",
-    "text": "Runs the real client downlink tasks (DownlinkTask::run) and real agent-hosted value/map downlinks (derived agent under AgentRouteTask, links served by the harness) on the same generated and exhaustively enumerated (depth 4/5) legal notification sequences, under all four events_when_not_synced x terminate_on_unlinked settings, with local writes, take/drop, relinks and connection loss. At every callback the exposed state must equal a reference fold, callbacks must match notification order and old/new values, on_synced fires exactly once per link, nothing is dispatched before sync when suppressed, and the two callback logs must be equal on sequences without take/drop. Illegal sequences are run for panics and hangs only.",
+    "text": "Runs the real client downlink tasks (DownlinkTask::run) and real agent-hosted value/map downlinks (derived agent under AgentRouteTask, links served by the harness) on the same generated and exhaustively enumerated (depth 4/5) legal notification sequences, under all four events_when_not_synced x terminate_on_unlinked settings, with local writes, take/drop, relinks and connection loss. At every callback the exposed state must equal a reference fold, callbacks must match notification order and old/new values, on_synced fires exactly once per link, nothing is dispatched before sync when suppressed, and the two callback logs must be equal on sequences without take/drop. Illegal sequences are run for panics and hangs only. Input failures (channel closed before link / while syncing / synced / between links, unknown tag, undecodable body, frame truncated by end of stream) are fed identically to both implementations: the prefix is judged as any legal sequence with equal logs, at most one on_unlinked/on_failed may report the fault, nothing is dispatched afterwards unless the agent obtained a new connection, on which the fold restarts. The write side is exercised under back-pressure (2-16 byte outputs, stalled consumer, 8 KiB write buffer filled, handle.stop(), handle drop, consumer lost before or during a write) with the state and callback rules unchanged; what reaches the outputs there is counted as observed/output-* and not judged (the statement is about the replica and the callbacks).",
     "note": "Trusted base: frame encoders, byte_channel, the paused clock. Frames in the `legal` part are cut only in the header or between frames; body-splitting chunkings run in `legal-anycut`, where divergences at/after a split body are reported as body-split/* (the incremental Recon decoder's business, C09/C10). Take/drop callback shape is observed, not compared.",
     "runs": [{"engine": "dlimpl"}],
     "assumptions": ["keys i32, values u64, unique per case", "at most 3 links per script", "hosted side driven through the public LinkRequest channel"],
